@@ -214,6 +214,13 @@ fn produce_image_from_entry(entry: &Entry) -> Result<image::RgbaImage, String> {
         format!("cannot transcode from unknown color format {}", format)
     })?;
 
+    let expected_len = cformat.bytes_per_pixel() * content_width as usize * content_height as usize;
+    if texture_data.data.len() != expected_len {
+        return Err(format!(
+            "texture data is {} bytes, but a {}x{} image in this color format needs {} bytes",
+            texture_data.data.len(), content_width, content_height, expected_len,
+        ));
+    }
     let content_argb = cformat.transcode_to_argb_8888(&texture_data.data);
     let content = BgraImage::from_raw(content_width, content_height, &content_argb[..]).expect("size error?!");
 
